@@ -57,7 +57,7 @@ static struct {
   coap_context_t *srv, *cli;
   coap_endpoint_t *ep;
   coap_session_t *cs;
-  coap_resource_t *r_small, *r_big, *r_up, *r_obs, *r_sep;
+  coap_resource_t *r_small, *r_big, *r_up, *r_obs, *r_loop;
   int obs_value;
   /* client side observations */
   int n_resp, n_nack, last_code, last_nack, last_obs;
@@ -181,6 +181,14 @@ static void pump(coap_tick_t budget) {
   }
 }
 
+static void h_loop(coap_resource_t *r, coap_session_t *s, const coap_pdu_t *req,
+                   const coap_string_t *q, coap_pdu_t *resp) {
+  (void)r; (void)s; (void)req; (void)q;
+  W.n_get++;
+  coap_pdu_set_code(resp, COAP_RESPONSE_CODE_HOP_LIMIT_REACHED);
+  coap_add_data(resp, 8, (const uint8_t *)"10.0.0.9");
+}
+
 static coap_resource_t *mkres(const char *name, coap_method_handler_t get,
                               coap_method_handler_t put) {
   coap_resource_t *r = coap_resource_init(coap_make_str_const(name), 0);
@@ -205,10 +213,12 @@ static int world_up(int block_mode) {
     W.r_big = mkres("big", h_big, NULL);
     W.r_up = mkres("up", NULL, h_up);
     W.r_obs = mkres("obs", h_obs, NULL);
-    R("res=%d%d%d%d", W.r_small != NULL, W.r_big != NULL, W.r_up != NULL, W.r_obs != NULL);
+    W.r_loop = mkres("loop", h_loop, NULL);
+    R("res=%d%d%d%d%d", W.r_small != NULL, W.r_big != NULL, W.r_up != NULL, W.r_obs != NULL,
+      W.r_loop != NULL);
     if (W.r_obs) coap_resource_set_get_observable(W.r_obs, 1);
-    coap_resource_t *all[4] = {W.r_small, W.r_big, W.r_up, W.r_obs};
-    for (int i = 0; i < 4; i++)
+    coap_resource_t *all[5] = {W.r_small, W.r_big, W.r_up, W.r_obs, W.r_loop};
+    for (int i = 0; i < 5; i++)
       if (all[i]) coap_add_resource(W.srv, all[i]);
       else ok = 0;
     if (W.r_small) {
@@ -240,7 +250,7 @@ static void world_release(void) {
   if (W.srv) coap_free_context(W.srv);
   W.cli = W.srv = NULL;
   W.ep = NULL;
-  W.r_small = W.r_big = W.r_up = W.r_obs = NULL;
+  W.r_small = W.r_big = W.r_up = W.r_obs = W.r_loop = NULL;
   vn_nnodes = 0;
 }
 
@@ -418,6 +428,19 @@ static void sc_notfound(void) {
     pump(120000);
     R("resp%d=%d code=%d len=%zu", i, W.n_resp - before, W.last_code, W.last_len);
   }
+  finish_with_canary();
+  world_down();
+}
+
+static void sc_resp508(void) {
+  /* a 5.08 response with diagnostic payload: coap_send_internal prepends its own address
+   * (RFC 8768 section 4), which needs the PDU to grow; with and without a Hop-Limit option */
+  prologue(COAP_BLOCK_USE_LIBCOAP | COAP_BLOCK_SINGLE_BODY);
+  coap_pdu_t *p = mk_req(W.cs, COAP_MESSAGE_CON, COAP_REQUEST_CODE_GET, "loop", NULL, NULL);
+  R("pdu=%d", p != NULL);
+  if (p) R("send=%d", send_tracked(W.cs, p) != COAP_INVALID_MID);
+  pump(120000);
+  R("resp=%d code=%d len=%zu nack=%d", W.n_resp, W.last_code, W.last_len, W.n_nack);
   finish_with_canary();
   world_down();
 }
@@ -688,7 +711,7 @@ static const scen_t scens[] = {
   {"setup", sc_setup},       {"get_con", sc_get_con},   {"get_non", sc_get_non},
   {"get_noblk", sc_get_noblk}, {"notfound", sc_notfound}, {"block2", sc_block2},
   {"block1", sc_block1},     {"observe", sc_observe},   {"uri", sc_uri},
-  {"pdu", sc_pdu},           {"teardown_busy", sc_teardown_busy},
+  {"pdu", sc_pdu},           {"teardown_busy", sc_teardown_busy}, {"resp508", sc_resp508},
   {NULL, NULL}};
 
 /* ------------------------------------------------------------------ child / parent */
